@@ -200,7 +200,117 @@ func newDialer(capn, n int) (*fasthttp.TCPDialer, string, int) {
 	return d, "verif.test:" + strconv.Itoa(port), port
 }
 
+// canary measures how late a sleeping goroutine wakes up while a scenario runs: an independent sign that the
+// machine is too loaded for the staggered starts and deadlines of the scenario to mean anything.
+type canary struct {
+	stop   chan struct{}
+	done   chan struct{}
+	maxLag time.Duration
+}
+
+func startCanary() *canary {
+	c := &canary{stop: make(chan struct{}), done: make(chan struct{})}
+	go func() {
+		defer close(c.done)
+		for {
+			select {
+			case <-c.stop:
+				return
+			default:
+			}
+			t := time.Now()
+			time.Sleep(2 * time.Millisecond)
+			if lag := time.Since(t) - 2*time.Millisecond; lag > c.maxLag {
+				c.maxLag = lag
+			}
+		}
+	}()
+	return c
+}
+func (c *canary) finish() time.Duration { close(c.stop); <-c.done; return c.maxLag }
+
+// reference dials: a plain net.Dialer with the same timeout against a private hanging endpoint, started together with
+// every dial under test.  How late THEY come back is how late this machine delivers a connect deadline right now;
+// it does not involve the code under test.
+var refOnce sync.Once
+var refAddr string
+
+func refSetup() {
+	refOnce.Do(func() {
+		for try := 0; try < 50; try++ {
+			port := int(atomic.AddInt32(&portCounter, 1))
+			if _, err := mkEndpoint('h', -1, port); err == nil { // 127.0.0.9
+				refAddr = net.JoinHostPort(ipOf(-1).String(), strconv.Itoa(port))
+				return
+			}
+		}
+	})
+}
+
+// refDial returns how much later than `to` the reference connect came back (or a large value if it did not hang)
+func refDial(to time.Duration, out *time.Duration, wg *sync.WaitGroup) {
+	defer wg.Done()
+	if refAddr == "" || to <= 0 {
+		*out = 0
+		return
+	}
+	b := time.Now()
+	ctx, cancel := context.WithDeadline(context.Background(), b.Add(to))
+	defer cancel()
+	var nd net.Dialer
+	c, err := nd.DialContext(ctx, "tcp4", refAddr)
+	el := time.Since(b)
+	if err == nil {
+		c.Close()
+		*out = time.Hour // the reference endpoint does not hang: nothing can be concluded
+		return
+	}
+	*out = el - to
+}
+
+const maxRefLate = 100 * time.Millisecond // the property oracle allows 250 ms
+
+const (
+	maxLagSeq  = 60 * time.Millisecond // sequential dials only need the 250 ms slack to hold
+	maxLagConc = 8 * time.Millisecond  // staggered starts (25 ms) and deadlines (>= 40 ms apart) must keep their order
+	attempts   = 6
+)
+
+func unstable(kind string) hlib.Case {
+	return hlib.Case{Coq: "CUnstable", Kind: "unstable-" + kind}
+}
+
+// runDial repeats the scenario (fresh dialer, fresh port) until one run was not disturbed by machine load;
+// a scenario that is disturbed every time is dropped (CUnstable), never reported.
 func runDial(d desc) hlib.Case {
+	concurrent := false
+	for _, ph := range d.Phases {
+		if len(ph.Starts) > 1 {
+			concurrent = true
+		}
+	}
+	var prev *hlib.Case
+	prevSig := ""
+	for a := 0; a < attempts; a++ {
+		c, rsig, ok := runDialOnce(d)
+		if ok {
+			if !concurrent {
+				return c
+			}
+			// scenarios whose outcome depends on the order of goroutines must come out the same twice
+			// (a real divergence from the model is deterministic and repeats; a scheduling glitch does not)
+			if prev != nil && prevSig == rsig {
+				return c
+			}
+			prev, prevSig = &c, rsig
+			continue
+		}
+		time.Sleep(time.Duration(20*(a+1)) * time.Millisecond)
+	}
+	return unstable("dial")
+}
+
+func runDialOnce(d desc) (hlib.Case, string, bool) {
 	var dialer *fasthttp.TCPDialer
 	var addr string
 	var port int
@@ -222,6 +332,8 @@ func runDial(d desc) hlib.Case {
 	sig := map[string]bool{}
 	key := ""
 	total := 0
+	stable := true
+	resSig := ""
 	for _, ph := range d.Phases {
 		oracle := ph.Oracle
 		for len(oracle) < d.N {
@@ -244,17 +356,26 @@ func runDial(d desc) hlib.Case {
 			el    int64
 		}
 		results := make([]res, len(ph.Starts))
+		late := make([]time.Duration, len(ph.Starts))
+		refLate := make([]time.Duration, len(ph.Starts))
 		var wg sync.WaitGroup
+		refSetup()
+		cn := startCanary()
 		t0 := time.Now()
 		var starts []string
 		for i, st := range ph.Starts {
 			if w := time.Until(t0.Add(time.Duration(st.Off) * time.Millisecond)); w > 0 {
 				time.Sleep(w)
 			}
+			if strings.Contains(oracle, "h") { // only then does a dial last until its deadline
+				wg.Add(1)
+				go refDial(time.Duration(st.To)*time.Millisecond, &refLate[i], &wg)
+			}
 			wg.Add(1)
 			go func(i int, st start) {
 				defer wg.Done()
 				b := time.Now()
+				late[i] = b.Sub(t0.Add(time.Duration(st.Off) * time.Millisecond))
 				c, err := dialer.DialTimeout(addr, time.Duration(st.To)*time.Millisecond)
 				el := time.Since(b).Milliseconds()
 				results[i] = res{st.T, st.To, classify(c, err), el}
@@ -262,12 +383,34 @@ func runDial(d desc) hlib.Case {
 			starts = append(starts, fmt.Sprintf("(%d, %d, %d)", st.Off, st.T, st.To))
 		}
 		wg.Wait()
+		lag := cn.finish()
 		for _, e := range eps {
 			e.close()
+		}
+		if len(ph.Starts) > 1 {
+			if lag > maxLagConc {
+				stable = false
+			}
+			for _, l := range late {
+				if l > maxLagConc {
+					stable = false
+				}
+			}
+		} else if lag > maxLagSeq || late[0] > maxLagSeq {
+			stable = false
+		}
+		for _, l := range refLate {
+			if l > maxRefLate {
+				stable = false
+			}
+		}
+		if !stable {
+			return hlib.Case{}, "", false
 		}
 		var rs []string
 		for _, r := range results {
 			rs = append(rs, fmt.Sprintf("(%d, %d, %s, %d)", r.t, r.to, r.r, r.el))
+			resSig += fmt.Sprintf("%d:%s;", r.t, r.r)
 			sig[strings.Fields(strings.Trim(r.r, "()"))[0]+fmt.Sprint(len(ph.Starts) > 1)+fmt.Sprint(strings.Contains(oracle, "h"))] = true
 			total++
 		}
@@ -279,7 +422,7 @@ func runDial(d desc) hlib.Case {
 		Sig:  fmt.Sprintf("dial:%d:%d:%s", d.Cap, d.N, strings.Join(hlib.SortedKeys(sig), ",")),
 		Kind: "dial",
 		Size: total,
-	}
+	}, resSig, true
 }
 
 func synSent(port int) int {
@@ -299,6 +442,16 @@ func synSent(port int) int {
 }
 
 func runStress(d desc) hlib.Case {
+	for a := 0; a < attempts; a++ {
+		if c, ok := runStressOnce(d); ok {
+			return c
+		}
+		time.Sleep(time.Duration(20*(a+1)) * time.Millisecond)
+	}
+	return unstable("stress")
+}
+
+func runStressOnce(d desc) (hlib.Case, bool) {
 	dialer, addr, port := newDialer(d.Cap, d.N)
 	kind := "h"
 	if d.Acc {
@@ -336,6 +489,11 @@ func runStress(d desc) hlib.Case {
 	}()
 	rs := make([]string, d.M)
 	var wg sync.WaitGroup
+	cn := startCanary()
+	refSetup()
+	var refLate time.Duration
+	wg.Add(1)
+	go refDial(time.Duration(d.To)*time.Millisecond, &refLate, &wg)
 	for i := 0; i < d.M; i++ {
 		wg.Add(1)
 		go func(i int) {
@@ -346,17 +504,21 @@ func runStress(d desc) hlib.Case {
 		}(i)
 	}
 	wg.Wait()
+	lag := cn.finish()
 	close(stop)
 	sw.Wait()
 	for _, e := range eps {
 		e.close()
+	}
+	if lag > maxLagSeq || refLate > maxRefLate {
+		return hlib.Case{}, false
 	}
 	return hlib.Case{
 		Coq:  fmt.Sprintf("CStress %d %d %d %d %s %s", d.Cap, d.N, d.To, maxin, hlib.Bool(d.Acc), hlib.List(rs)),
 		Sig:  fmt.Sprintf("stress:%d:%d:%v:%d", d.Cap, d.M, d.Acc, maxin),
 		Kind: "stress",
 		Size: d.M,
-	}
+	}, true
 }
 
 func run(d desc) hlib.Case {
